@@ -21,6 +21,7 @@ CONSTANTS
     MaxEvents,  \* bound on the number of environment events
     Emit,       \* TRUE: print one schedule per transition
     EmitFullOnly, \* TRUE: print only schedules of full length (random walks in -simulate mode)
+    Emit2,      \* TRUE: additionally print every transition extended by every event enabled after it
     MsgIds,     \* message IDs used by both sides
     AuthModes,  \* subset of {TRUE, FALSE}
     CredModes,  \* subset of {TRUE, FALSE}: gateway configured with credentials
@@ -213,6 +214,12 @@ Next ==
           /\ (bad' # {} => PrintT("BAD:" \o ToJson([bad |-> bad', events |-> [i \in DOMAIN hist' |-> EvSum(hist'[i])]])))
           /\ ((Emit /\ (~EmitFullOnly \/ Len(hist') = MaxEvents \/ ~s2.alive)) =>
                  PrintT("SCHED:" \o ToJson([cfg |-> s.cfg, prefix |-> Prefix, events |-> hist'])))
+          \* transition-pair coverage: every transition followed by every event enabled after it.  Two
+          \* histories that reach the same abstract state need not reach the same implementation state,
+          \* so the successor's events are also replayed along THIS history.
+          /\ ((Emit /\ Emit2) =>
+                 \A e2 \in Events(s2) :
+                    PrintT("SCHED:" \o ToJson([cfg |-> s.cfg, prefix |-> Prefix, events |-> Append(hist', e2)])))
 
 Spec == Init /\ [][Next]_vars
 
